@@ -139,8 +139,10 @@ def mirror(pep, how, rng):
     return "".join(b) + last
 
 
-def gen_fasta(rng, mode, wide=False):
-    """-> (fasta text, list of plain peptides of targets, of decoys); wide: many proteins, few overlaps"""
+def gen_fasta(rng, mode, wide=False, trios=0):
+    """-> (fasta text, list of plain peptides of targets, of decoys); wide: many proteins, few overlaps;
+    trios: number of (A, B, fragment) triples with fragment inside both A and B, A and B not nested (the fragment's
+    group then has several candidate groups to join: the multi-match path of the grouping)"""
     npool = rng.randint(14, 24) if wide else rng.randint(3, 9)
     pool = []
     while len(pool) < npool:
@@ -163,6 +165,15 @@ def gen_fasta(rng, mode, wide=False):
         else:
             peps = rng.sample(pool, rng.randint(1, 2 if wide else min(4, npool)))
         prots.append(peps)
+    for t in range(trios):
+        fresh = []
+        while len(fresh) < 4:
+            q = rand_pep(rng)
+            if q not in pool and q not in fresh:
+                fresh.append(q)
+        shared = fresh[:2]
+        prots += [shared + [fresh[2]], shared + [fresh[3]], list(shared)]
+        names += ["ISO%dA" % t, "ISO%dB" % t, "FRAG%d" % t]
     lines = []
     tpeps, dpeps = set(), set()
     for nm, peps in zip(names, prots):
